@@ -77,15 +77,19 @@ func (c *Ctx) versionedConstructor(r *Reconcile) {
 	}
 	fn, an := c.Analysis(fi)
 	info := fi.Pkg.TypesInfo
-	var params []*ast.Ident
-	for _, f := range fi.Decl.Type.Params.List {
-		params = append(params, f.Names...)
-	}
-	if len(params) != 5 {
-		c.Fail("versioned constructor: expected 5 parameters")
+	roles := c.ctorRolesOf(r)
+	if roles == nil {
+		c.Fail("versioned constructor: the roles of its parameters (current/update set, current/update revision name, ordinal) do not resolve from its call in %s", r.FI.Obj.Name())
 		return
 	}
-	curSet, updSet, curRev, updRev, ord := params[0], params[1], params[2], params[3], params[4]
+	curSet, updSet, curRev, updRev, ord := roles.CurSet, roles.UpdSet, roles.CurRev, roles.UpdRev, roles.Ord
+	// the role expressions are type-checked in the constructor's scope (they may be fields of a parameter struct)
+	roleT := func(e ast.Expr) *gf.Term {
+		if t := c.WantTerm(fn, fi.Decl.Body.Lbrace+1, "$1", e); t != nil {
+			return t
+		}
+		return fn.Term(e)
+	}
 	inner := c.Func(load.CtrlPkg, "newStatefulSetPod")
 	setRev := c.Func(load.CtrlPkg, "setPodRevision")
 	if inner == nil || setRev == nil {
@@ -102,7 +106,7 @@ func (c *Ctx) versionedConstructor(r *Reconcile) {
 		}
 		nBuild++
 		name := fmt.Sprintf("%s: build[%d]", fi.Obj.Name(), nBuild-1)
-		c.Check(fn.Term(build.Args[1]).Key() == fn.Term(ord).Key(), "C07.4-own-ordinal", name, build.Pos(),
+		c.Check(fn.Term(build.Args[1]).Key() == roleT(ord).Key(), "C07.4-own-ordinal", name, build.Pos(),
 			"the pod is built for the constructor's own ordinal parameter", "the pod is built for a different ordinal than requested")
 		as, _ := stmtOf(fi.Decl.Body, build).(*ast.AssignStmt)
 		var pod types.Object
@@ -141,11 +145,11 @@ func (c *Ctx) versionedConstructor(r *Reconcile) {
 		var why string
 		for _, d := range st.D {
 			one := gf.State{D: []*gf.Disj{d}}
-			isCur, _ := one.Implies(gf.FEq(S, fn.Term(curSet)))
-			isUpd, _ := one.Implies(gf.FEq(S, fn.Term(updSet)))
+			isCur, _ := one.Implies(gf.FEq(S, roleT(curSet)))
+			isUpd, _ := one.Implies(gf.FEq(S, roleT(updSet)))
 			switch {
 			case isCur:
-				r, _ := one.Implies(gf.FEq(R, fn.Term(curRev)))
+				r, _ := one.Implies(gf.FEq(R, roleT(curRev)))
 				bl, _ := one.Implies(below)
 				if !r {
 					okAll, why = false, "a pod built from the current set is stamped with a different revision name"
@@ -153,7 +157,7 @@ func (c *Ctx) versionedConstructor(r *Reconcile) {
 					okAll, why = false, "a pod is built from the current set although its ordinal is not proven below the partition: "+clip(d.String(), 400)
 				}
 			case isUpd:
-				r, _ := one.Implies(gf.FEq(R, fn.Term(updRev)))
+				r, _ := one.Implies(gf.FEq(R, roleT(updRev)))
 				bl, _ := one.Implies(gf.Not(below))
 				if !r {
 					okAll, why = false, "a pod built from the update set is stamped with a different revision name"
